@@ -66,12 +66,17 @@ static bool featSubset(const Txt a[], unsigned na, const Txt b[], unsigned nb)
     }
     return all;
 }
-static void checkIff(bool same, const QByteArray &va, const QByteArray &vb, const char *ifMsg, const char *onlyIfMsg)
+template<bool identities> static void checkIff(bool same, const QByteArray &va, const QByteArray &vb)
 {
     vp_assert(vp_hash_calls() == 2 && vp_hash_alg(0) == 2 && vp_hash_alg(1) == 2, "C20 each verificationString computes exactly one SHA-1 hash");
     bool sameS = vp_hash_input_eq(0, 1);
-    vp_assert(!same || sameS, ifMsg);
-    vp_assert(same || !sameS, onlyIfMsg);
+    if constexpr (identities) {
+        vp_assert(!same || sameS, "C20 reordering identities does not change the hashed string");
+        vp_assert(same || !sameS, "C20 adding, removing or altering an identity changes the hashed string");
+    } else {
+        vp_assert(!same || sameS, "C20 reordering or repeating features does not change the hashed string");
+        vp_assert(same || !sameS, "C20 adding, removing or altering a feature changes the hashed string");
+    }
     vp_assert(vp_hash_output_is(0, &va) && vp_hash_output_is(1, &vb), "C20 verificationString returns the SHA-1 digest of the hashed string");
     vp_assert(!sameS || vp_hash_same_output(0, 1), "C20 equal hashed strings give equal verification strings");
 }
@@ -88,8 +93,7 @@ extern "C" void h_feat_iff()
     QByteArray va = A->verificationString();
     QByteArray vb = B->verificationString();
     bool sameSet = featSubset(fa, na, fb, nb) && featSubset(fb, nb, fa, na);
-    checkIff(sameSet, va, vb, "C20 reordering or repeating features does not change the hashed string",
-             "C20 adding, removing or altering a feature changes the hashed string");
+    checkIff<false>(sameSet, va, vb);
 }
 // (i)+(iii) identities: two identity lists hash the same string iff they are equal as multisets
 static bool idEq(const IdT &a, const IdT &b) { return idCmp(a, b) == 0; }
@@ -105,8 +109,7 @@ extern "C" void h_id_iff()
     static_assert(NID == 2, "multiset equality below is written for at most 2 identities");
     bool same = na == nb && (na == 0 || (na == 1 && idEq(ia[0], ib[0])) ||
                              (na == 2 && ((idEq(ia[0], ib[0]) && idEq(ia[1], ib[1])) || (idEq(ia[0], ib[1]) && idEq(ia[1], ib[0])))));
-    checkIff(same, va, vb, "C20 reordering identities does not change the hashed string",
-             "C20 adding, removing or altering an identity changes the hashed string");
+    checkIff<true>(same, va, vb);
 }
 
 // ---- extension form ----
@@ -175,53 +178,23 @@ extern "C" void h_form_ref()
     ref_form(r, hasFormType, formType, fields, nfields);
     check_against_oracle(r, ver);
 }
-#ifdef C20_PROBE
-extern "C" void h_probe()
+
+// Demonstration of the finding "empty_field_value" (runs only while the key is listed in known_findings.txt): one identity,
+// FORM_TYPE and ONE single-valued field whose value is the empty string.  QXmppDataForm::toXml() serialises such a field without
+// any <value/> element, so XEP-0115 5.1 gives "...<var<" for what is sent, whereas verificationString() hashes "...<var<<".
+extern "C" void h_form_kf_empty()
 {
-    Txt a = symTxt(), b = symTxt();
-    QString qa = qstr(a), qb = qstr(b);
-    QStringList l; vp_c20_strlist_push(&l, &qa); vp_c20_strlist_push(&l, &qb);
-#if C20_PROBE == 2
-    { QString qc = qstr(symTxt()); vp_c20_strlist_push(&l, &qc); }
-#endif
-#if C20_PROBE == 1 || C20_PROBE == 3
-    if (vp_bool()) l.swapItemsAt(0, 1);
-#else
-    std::sort(l.begin(), l.end());
-#endif
-#if C20_PROBE == 3
-    QString S; S += l.at(0) + u'/' + l.at(1) + u'<'; S += l.at(1) + u'<'; S += l.at(0) + u'<';
-    vp_assert(S.size() >= 4, "C20 probe");
-#else
-    bool lt = l.at(0) < l.at(1);
-    vp_assert(lt || !lt, "C20 probe");
-#endif
+    VpRaw<QXmppDiscoveryIq> raw; QXmppDiscoveryIq *iq = rawIq(raw);
+    IdT ids[NID]; FieldT fields[NFIELD];
+    symIdentities(ids, 1); setIdentities(iq, ids, 1);
+    Txt formType = symTxt();
+    for (unsigned i = 0; i < NFIELD; i++) { fields[i].key = symTxt(); fields[i].multi = false; fields[i].nval = 1; for (unsigned k = 0; k < NVAL; k++) fields[i].val[k] = symTxt(); }
+    vp_assume(fields[0].val[0].len == 0);
+    setForm(iq, true, formType, fields, 1, 0);
+    QByteArray ver = iq->verificationString();
+    normalise(fields, 1);
+    Ref r;
+    ref_identities(r, ids, 1);
+    ref_form(r, true, formType, fields, 1);
+    check_against_oracle(r, ver);
 }
-#endif
-#ifdef C20_PROBE
-static void mk3(QStringList &l) { QString a = qstr(symTxt()), b = qstr(symTxt()), c = qstr(symTxt()); vp_c20_strlist_push(&l, &a); vp_c20_strlist_push(&l, &b); vp_c20_strlist_push(&l, &c); }
-extern "C" void h_pA()   // one manual insertion step with iterators
-{
-    QStringList l; mk3(l);
-    auto last = l.begin() + 1; QString val = std::move(*last); auto next = last; --next;
-    if (val < *next) { *last = std::move(*next); last = next; }
-    *last = std::move(val);
-    vp_assert(l.at(0).size() <= 3, "C20 probe");
-}
-extern "C" void h_pB()   // the same with plain references, no iterator objects
-{
-    QStringList l; mk3(l);
-    QString &s0 = l[0], &s1 = l[1];
-    QString val = std::move(s1);
-    QString *last = &s1;
-    if (val < s0) { s1 = std::move(s0); last = &s0; }
-    *last = std::move(val);
-    vp_assert(l.at(0).size() <= 3, "C20 probe");
-}
-extern "C" void h_pC()   // libstdc++ helper directly, once
-{
-    QStringList l; mk3(l);
-    std::__unguarded_linear_insert(l.begin() + 1, __gnu_cxx::__ops::__val_less_iter());
-    vp_assert(l.at(0).size() <= 3, "C20 probe");
-}
-#endif
